@@ -41,9 +41,64 @@ CLAIMED = {
             "exhaustive enumeration of (client revision, server revision) pairs over the threshold-neighbour set and of handshake fault responses (every truncation point of the hello, exception, wrong packet, garbage, cut, silence, late hello), each executed on the real Connect / Dial over the simulated connection with the fake clock",
             "~2.6k revision pairs with a well-formed hello written by the reference peer with the fields of min(client, server): ServerInfo, addendum presence, and a follow-up query parsed / answered at min(client, server); fault responses on a diagonal of pairs through Connect and Dial: error (carrying the exception), no client, dialled connection closed; hello delayed beyond the read timeout but within the handshake timeout must be accepted.",
             "Trusted: refwire hello model (fields gated on min of both revisions, as real servers do)."),
+    "C01": ("exploration", "DESIGN.md §4 C01, §2 E3/E4/E5",
+            "bounded-exhaustive enumeration of (column composition, value sequence, revision, buffer state) with three independent decoders (typed, inferred, reference model) as oracle, executed in the default and the purego build with transcript comparison",
+            "Every composition of the generated registry (45 base columns under Array / Nullable / LowCardinality / Map / Tuple to depth 2: ~1000 typed constructors) x all value sequences of length <= 2 (thorough 3) over per-type boundary alphabets x 3 revisions x 3 buffer states, plus dictionary sizes around 255 / 65535 and strings around the varint boundaries. Each case must decode to the appended values through a fresh typed column, through Results.Auto where the type is inferable and through the reference codec (exact consumption), must not depend on the buffer's prior contents, must re-encode identically and must equal the WriteBlock path; both builds must agree.",
+            "Trusted: refcol (reference codec written from the format description) and the reflection glue mapping Go values to canonical wire values (its date arithmetic is independent of the library's). LowCardinality(Nullable(T)) is compared only against the library's own decoders (its library representation is not the server's). Depth-3 compositions are not generated."),
+    "C05": ("fault_enumeration", "DESIGN.md §4 C05",
+            "exhaustive enumeration of payload lengths x kinds x methods, frame sequences x read sizes, every single-byte alteration of representative frames, out-of-range size fields, and an explicit-state search over append-frame / corrupt-frame / read histories on one reader",
+            "Round trip of every payload length 0..512 (thorough 4096) in 4 content kinds with None, LZ4, ZSTD and LZ4HC at every level, cross-read by an independent frame parser in both directions; all frame sequences of length <= 3 x 67 read sizes; every byte of 16 frames altered 10 ways (thorough 255) must give an error (CorruptedDataErr with both hashes when the length fields are intact) and the following reads must only return bytes of verified frames; size fields beyond the limit rejected with < 1 MiB allocated; all histories of <= 4 (5) steps.",
+            "Trusted: go-faster/city, pierrec/lz4, klauspost/zstd (shared by library and reference frame codec)."),
+    "C06": ("fault_enumeration", "DESIGN.md §4 C06",
+            "exhaustive single-point mutation of valid encodings (every byte x 10 values, every offset x 15 boundary / huge values as 8-byte field and as varint, every splice offset) decoded in memory-limited subprocesses with crash attribution and a non-termination watchdog",
+            "Corpus: one block per registry composition and the protocol messages. Each mutant is decoded through the typed target and through Auto; the worker runs with a 3 GiB address-space limit and the block row cap lowered to 65536 by an overlay (so that by-design allocations stay small and only length-field-driven ones can exhaust memory). Oracle: returns within 30 s, no panic, process alive, and on success Rows() equals the block's row count and Row(i) works for every i. A dying worker is attributed to the input it was decoding and restarted after it.",
+            "Trusted: the overlay that rewrites only the constant maxRowsInBLock. Quick covers every composition of depth <= 1 and every 7th of depth 2; thorough all."),
+    "C07": ("fault_enumeration", "DESIGN.md §4 C07",
+            "exhaustive enumeration of every proper prefix of every corpus encoding (plain, and inside None / LZ4 / ZSTD frames as one and two frames), decoded through typed and inferred targets",
+            "Corpus = C01 blocks (all compositions) and C17 messages at three revisions; ~2.2 million (encoding, cut, decoder) cases in the quick tier; a prefix the reference model parses as a complete message is excluded by construction. Oracle: an error, never nil.",
+            "Trusted: refcol / refwire for the exclusion of prefixes that are complete messages."),
+    "C11": ("model_checking", "DESIGN.md §4 C11, §2 E1",
+            "stateless model checking of the real chpool + puddle + ch.Dial under the controlled scheduler: preemption-bounded DFS over all interleavings of the pool-level steps of 2-3 holder threads, an optional closer thread and the health-check goroutine driven by the fake clock",
+            "Holder programs (ok / exception / transport error / cancelled / repeated Release / Pool.Do / Pool.Ping / two queries) in pairs and triples with MaxConns 1 and 2, with and without a concurrent Pool.Close, and health-check scenarios with short idle time and lifetime. Invariants on every execution: one holder per connection (reconstructed from the query ids each simulated connection saw), broken connections never reissued nor written to, open connections <= MaxConns at every dial, repeated Release harmless, every dialled connection closed after Close, idle connections destroyed by the health check. Quick: bound 1 on 18 scenarios; thorough: bound 2 on ~90.",
+            "Trusted: puddle v2.2.2 and x/sync semaphore are instrumented at function granularity (their internal mutex operations are scheduling points, their internal data races are not C12's subject); what a holder does on its own connection is a quiet region whose privacy the connection log would contradict."),
+    "C14": ("model_checking", "DESIGN.md §4 C14",
+            "explicit-state enumeration of all operation sequences of the vectored writer up to a depth against a pending-bytes reference model, with full private-state fingerprints",
+            "All 12^6 (thorough 12^7) sequences over {ChainBuffer 0/1/3/70 bytes, ChainWrite 0/1/5 bytes, Flush to an accepting / failing-after-0,1,4 / short-writing writer} x initial capacity {0, 64}, every byte position-unique: each Flush must deliver exactly the pending bytes (a prefix on failure) and nothing twice. Path equivalence WriteBlock = EncodeBlock is checked for every C01 case.",
+            "Trusted: none beyond the Go runtime."),
+    "C15": ("exploration", "DESIGN.md §4 C15, §2 E5",
+            "differential execution of one exhaustive enumeration in two builds (default and -tags purego) with line-by-line transcript comparison",
+            "35 two-variant codecs x {all 256 / 65536 values for 1- and 2-byte elements, boundary patterns otherwise} x {fresh, reset-after-use} target x decode (whole input and every truncation) x encode into buffers pre-filled with 0..9 bytes x WriteColumn+Flush; each build also checks encode(decode(x)) = x itself.",
+            "Trusted: the driver's transcript comparison. Bool is fed only bytes both builds accept (0 / 1)."),
+    "C16": ("model_checking", "DESIGN.md §4 C16",
+            "explicit-state breadth-first search over operation histories on the real column objects, deduplicated by a fingerprint of every (also unexported) field, against a list-of-values reference model",
+            "21 compositions (thorough: all of depth <= 1) x histories to depth 5 (6) over {Append x3, Reset, EncodeBlock, WriteBlock+Flush, DecodeBlock of 0/2/3 rows with another dictionary, truncated DecodeBlock + Reset, Prepare, Infer}: after every history Rows/Row equal the model, a fresh encode decoded by the reference codec equals the model, and encoding twice is stable.",
+            "Trusted: refcol; the successor of a state is built by replaying its path on a fresh object."),
+    "C17": ("exploration", "DESIGN.md §4 C17",
+            "bounded-exhaustive enumeration of message field vectors x revisions, byte-for-byte comparison with the independent reference encoder and decode-back comparison",
+            "9 message kinds with <= 2 deviating fields over per-field alphabets x the threshold-neighbour revision set (thorough: every revision 50000..54500): library bytes = reference bytes, decode gives the message as far as the revision carries it, no unread bytes.",
+            "Trusted: refwire (thresholds from ProtocolDefines.h)."),
+    "C18": ("exploration", "DESIGN.md §4 C18",
+            "bounded-exhaustive enumeration of (block schema, target list, row count) and of block pairs, with a reference compatibility predicate as oracle",
+            "Schemas of 0..2 (3) columns over 18 kinds x 2 row counts x ~60 target variants (permutations, renames, blank names, missing / extra, every kind swap, Auto, none) and block pairs against the same targets: accept / reject must match the predicate, accepted targets hold exactly their column, rejected decodes leave no foreign data.",
+            "Trusted: the predicate (same base; enum <-> integer; enums and timestamps adopt the server's parameters; FixedString width must match; wrappers element-wise; a name-based enum target needs an enum block; Auto applies where ColAuto.Infer accepts)."),
+    "C19": ("exploration", "DESIGN.md §4 C19",
+            "bounded-exhaustive enumeration of type strings (well-formed grammar to depth 2/3 with legal and illegal parameters; all token strings up to length 5/6 over a 25-token alphabet; depth-10000 nesting) and of all ordered pairs for the compatibility relation",
+            "Infer must not panic; when it accepts, the inferred type must not conflict with the request and a block written by the reference codec must decode to the written values; Conflicts must be reflexive and symmetric on all ~10^7 ordered pairs and agree with the documented equivalences.",
+            "Trusted: refcol for the soundness decode (types it does not know are checked for totality only)."),
 }
 
 ENGINE = {
+    "C01": "E3+E4+E5 (checks/seq, checks/seq/reg, refcol)",
+    "C05": "E4 (checks/seq) + refwire frame model",
+    "C06": "E4 (checks/seq, worker built with the row-cap overlay)",
+    "C07": "E4 (checks/seq)",
+    "C11": "E1 (checks/sched; instrumented puddle / x-sync under gen/)",
+    "C14": "E4-BFS (checks/seq)",
+    "C15": "E5 (checks/seq in two builds)",
+    "C16": "E4-BFS (checks/seq)",
+    "C17": "E3+E4 (checks/seq, refwire)",
+    "C18": "E4 (checks/seq)",
+    "C19": "E4 (checks/seq)",
     "C02": "E1(default schedule)+E2+E3 (checks/sched)",
     "C03": "E1(default schedule)+E2+E3 (checks/sched)",
     "C08": "E1(default schedule + clock)+E2+E3 (checks/sched)",
